@@ -108,7 +108,7 @@ def sendReply (cid : Option String) (id : JVal) (cast : Bool) (status errno body
   let a ← getA
   match cid with
   | none => pure ()
-  | some c => if cast || a.ctlClosed then pure () else emit (.rep c id status errno body)
+  | some c => if cast || a.ctlClosed then pure () else emitRep c id status errno body
 
 def setClosed : M Unit := modA fun a => { a with ctlClosed := true, pubClosed := true }
 
@@ -128,7 +128,7 @@ def newTop (cbs : List TopCb) : M Nat := do
 
 /-- the future `tid` is done with value `v`: it leaves the table, its outcome is remembered -/
 def finishTop (tid : Nat) (v : Val) : M Unit :=
-  modS fun s => { s with tops := s.tops.filter (·.tid ≠ tid), doneVals := (tid, v) :: s.doneVals }
+  modS fun s => { s with tops := s.tops.eraseP (·.tid = tid), doneVals := (tid, v) :: s.doneVals }
 
 def topAddCb (tid : Nat) (cb : TopCb) : M Unit :=
   modS fun s => { s with tops := s.tops.map fun t => if t.tid = tid then { t with cbs := t.cbs ++ [cb] } else t }
@@ -156,16 +156,21 @@ def runTopCb (v : Val) : TopCb → M Unit
 
 /-- a top-level future completes: its done-callbacks are scheduled (`release` of a future that is
     still being awaited synchronously by `util.synchronized` runs in place) -/
+def deliverCbs (armed : Bool) (v : Val) : List TopCb → M Unit
+  | [] => pure ()
+  | cb :: rest => do
+    (match cb, armed with
+      | .release, false => runTopCb v .release
+      | cb, _ => enqueue (.topCb cb v))
+    deliverCbs armed v rest
+
 def deliverTop (tid : Nat) (v : Val) : M Unit := do
   let s ← getS
   match s.tops.find? (·.tid = tid) with
   | none => pure ()
   | some t =>
     finishTop tid v
-    for cb in t.cbs do
-      match cb, t.armed with
-      | .release, false => runTopCb v .release
-      | cb, _ => enqueue (.topCb cb v)
+    deliverCbs t.armed v t.cbs
 
 /-- hand a coroutine result to whoever waits for it.  A waiter that is still on the Python
     stack (not yet `armed`) continues synchronously; otherwise the continuation is a callback
